@@ -132,7 +132,7 @@ fn window_case(rec: &mut Rec, _ctx: &Ctx, idx: u64, rng: &mut ChaCha20Rng) {
   let t = rng.gen_range(2..=5u32);
   let m = rand_bytes_pick(rng, &[8usize, 16, 32, 64]);
   let e = rand_bytes_in(rng, 0..8);
-  let al = *pick(rng, &[8usize, 9, 16, 31, 32, 64, 200]);
+  let al = *pick(rng, &[8usize, 9, 16, 31, 32, 64, 120, 200, 340, 700]);
   let auxes: Vec<Vec<u8>> = (0..t).map(|_| rand_bytes(rng, al)).collect();
   rec.evals += 1;
   rec.case(&("window", t, m.len(), al));
@@ -162,11 +162,11 @@ fn window_case(rec: &mut Rec, _ctx: &Ctx, idx: u64, rng: &mut ChaCha20Rng) {
   for (ri, r) in reps.iter().enumerate().take(2) {
     // M1: aux in the clear
     rec.ev("aux_scan");
-    if let Some(off) = find_sub(&r.bytes, &r.aux) {
+    if let Some((j, off)) = find_any_window(&r.bytes, &r.aux, 8) {
       rec.violation(
         "cleartext:associated-data",
-        format!("associated data ({} bytes) occurs in the clear at offset {} of the encoded report", r.aux.len(), off),
-        json!({"case": idx, "report": hex_short(&r.bytes), "aux": hex(&r.aux)}),
+        format!("bytes {}.. of the associated data ({} bytes, uniform) occur in the clear at offset {} of the encoded report", j, r.aux.len(), off),
+        json!({"case": idx, "report": hex_short(&r.bytes), "aux": hex(&r.aux), "aux_offset": j, "report_offset": off}),
       );
     }
     let ct = Ciphertext::from_bytes(&r.ct);
